@@ -196,6 +196,8 @@ func runTimed(env *Env) error {
 		wantCut := time.Duration(last+j.T) * time.Millisecond
 		tol := time.Duration(max(150, j.T/2)) * time.Millisecond
 		switch {
+		case r.responses > j.nreq:
+			env.OracleFail(j.id, fmt.Sprintf("[C16-cut] %s script with T=%dms: a request that took longer than T to arrive was still answered (%d answers for %d requests completed in time; connection ended at %v, expected a cut at %v)", j.kind, j.T, r.responses, j.nreq, r.cutAt, wantCut))
 		case r.cutAt == 0:
 			env.OracleFail(j.id, fmt.Sprintf("[C16-cut] %s script with T=%dms: the connection was not cut (handled %d of %d)", j.kind, j.T, r.responses, j.nreq))
 		case r.responses != j.nreq:
